@@ -155,12 +155,20 @@ def build_T16a(tree):
                              doc='`_count_roi_items`: one iteration of the loop over the content items (counters in, counters out: '
                                  + ', '.join(counters) + ')')
     un = find_func(tree, '_unversioned_name')
-    if [' '.join(ast.unparse(x).split()) for x in strip_doc(un.body)] != [
-            'name = item.name', 'if name.scheme_version is None: return name',
+    wv = find_func(tree, '_without_version')
+    if [' '.join(ast.unparse(x).split()) for x in strip_doc(un.body)] != ['return _without_version(item.name)'] or \
+            [' '.join(ast.unparse(x).split()) for x in strip_doc(wv.body)] != [
+            'if name.scheme_version is None: return name',
             'return CodedConcept(value=name.value, scheme_designator=name.scheme_designator, meaning=name.meaning)']:
-        raise Unsupported('_unversioned_name changed: it must return the name itself or the same (value, designator, meaning) without version')
+        raise Unsupported('_unversioned_name / _without_version changed: the name itself, or the same (value, designator, meaning) without version')
+    # no comparison of a concept NAME with its coding scheme version is left in the file
+    strict = [' '.join(ast.unparse(n).split()) for n in ast.walk(tree) if isinstance(n, ast.Compare) and
+              any(isinstance(x, ast.Attribute) and x.attr == 'name' and isinstance(x.value, ast.Name) and x.value.id in ('item', 'content_item', 'group_item')
+                  for x in [n.left] + list(n.comparators))]
+    if strict:
+        raise Unsupported(f'sr/templates.py compares a concept name together with its coding scheme version again: {strict[:3]}')
     parts = [t_guard, t_step]
-    shas = [ast.unparse(fn), ast.unparse(un)]
+    shas = [ast.unparse(fn), ast.unparse(un), ast.unparse(wv)]
     for qual, nm in (('_contains_planar_rois', 'containsPlanarRois'), ('_contains_volumetric_rois', 'containsVolumetricRois')):
         f2 = find_func(tree, qual)
         b2 = strip_doc(f2.body)
